@@ -238,3 +238,9 @@ package rhp
 //@   ensures @valid rhpValid(N)
 //@   ensures @consensus consensus.CVRenewalValues(fc, result0)
 //@   ensures @usage result1.RPC == prices.ContractPrice && cost(result1) == types.u128(prices.ContractPrice) && types.u128(result1.RiskedCollateral) == types.u128(N.TotalCollateral) - types.u128(N.MissedHostValue)
+
+// ------------------------------------------------------------ rhp.go: text form of Account (C20, reduced)
+//@ func (*Account).UnmarshalText
+//@   prop C20
+//@   modifies a
+//@   ensures @accepts-only-bounded-length result == nil ==> len(b) == 64 || len(b) == 72
